@@ -34,7 +34,7 @@ func merkleCase(c *ctx, hs []util.Uint256) {
 		flat = append(flat, h.BytesBE()...)
 	}
 	var tree, calc string
-	obs := hx.Safe(func() string {
+	obs := c.safe(func() string {
 		tree = "err"
 		t, err := hash.NewMerkleTree(append([]util.Uint256{}, hs...))
 		if err == nil {
